@@ -59,7 +59,9 @@ GEN_NAMES = ["data", "errors", "value", "key", "result", "extra", "getter", "sen
              "CollectionsSequence", "has_not_found_error", "extra_set", "placeholder", "obj", "target", "coercer", "src", "dst",
              "_closure_signature", "_stub_function", "_update_wrapper", "_closure_maker", "closure", "func", "model_loader",
              "model_dumper", "convert", "coerce", "field_loader", "field_dumper", "omitted", "Omitted", "sentinel_", "exc", "args",
-             "kwargs", "packed", "opt", "accessor", "getter_", "trail_", "mapping", "sequence", "item", "items", "keys", "values"]
+             "kwargs", "packed", "opt", "accessor", "getter_", "trail_", "mapping", "sequence", "item", "items", "keys", "values",
+             # placeholders of the generators' own code templates
+             "__target_expr__", "a__target_expr__b", "target_expr", "__data__", "__value__"]
 PREFIXES = ["loader_", "dumper_", "f_", "r_", "dfl_", "g_", "data_", "extra_", "known_keys_", "required_keys_", "v_", "accessor_"]
 BUILTINS = ["print", "list", "dict", "type", "id", "len", "set", "str", "int", "isinstance", "tuple", "object", "getattr", "Exception",
             "KeyError", "AttributeError", "zip", "map", "iter", "next", "__canary__"]
